@@ -113,6 +113,6 @@ def jobs(tier):
     js = []
     for name, shape, reqs, groups, incl in CASES:
         js.append(dict(name=f'H12:{name}', fn='h_disjoint', params=dict(shape=shape, reqs=reqs, groups=groups, include_first=incl),
-                       witness_every=5, budget_s=200 if tier == 'quick' else 1500, opts=dict(no_ties=True),
+                       witness_every=5, budget_s=200 if tier == 'quick' else 600, opts=dict(no_ties=True),
                        cost=len(SHAPES[shape][1]) ** 3))
     return js
